@@ -39,6 +39,7 @@ class PE:
         self.call_default = call_default or {}     # callee name -> value assumed for its result (e.g. status 0)
         self.out_default = {}                      # callee name -> {arg index: value stored through that &var argument}
         self.memory = {}                           # address -> byte value (a small window of abstract buffer contents)
+        self.wrap = False                          # True: + - * << ~ on unsigned integer types are reduced modulo 2^width
 
     # ---- expression evaluation with a key->value binding
     def _hook(self, bind, callvals):
@@ -107,6 +108,18 @@ class PE:
                     es = u.elem_size(n["x"]["t"]) or 1
                     return (rec(n["x"]) - rec(n["y"])) // es
                 return None
+            if self.wrap and "t" in n and "cv" not in n and ((k == "bin" and n["op"] in ("+", "-", "*", "<<")) or (k == "un" and n.get("op") in ("~", "-"))):
+                t = u.type(n["t"])
+                if t["k"] == "int" and not t.get("sg"):
+                    w = t.get("w", 64)
+                    if k == "un":
+                        v = rec(n["e"])
+                        return (~v if n["op"] == "~" else -v) & ((1 << w) - 1)
+                    a, b = rec(n["x"]), rec(n["y"])
+                    if n["op"] == "<<" and not 0 <= b < w:
+                        raise r_mpt.Unknown()
+                    v = {"+": a + b, "-": a - b, "*": a * b, "<<": a << b if n["op"] == "<<" else 0}[n["op"]]
+                    return v & ((1 << w) - 1)
             if k == "cast" and "cv" not in n:
                 t = u.type(n["t"]) if "t" in n else None
                 if t is not None and t["k"] == "int" and n.get("ck") in ("IntegralCast", None, "NoOp"):
